@@ -1,3 +1,4 @@
+#![allow(dead_code)]
 //! Independent encoding tables, written from the ISA manuals / psABI documents (Arm ARM DDI0487
 //! C4/C6, AArch64 ELF ABI IHI0056; RISC-V unprivileged ISA ch. 2 + "C" extension, RISC-V ELF psABI;
 //! LoongArch reference manual vol.1 + LoongArch ELF psABI). Nothing here is derived from wild.
